@@ -13,9 +13,10 @@ ENTRY = {
             'CurvedPolygon.area; length: degrees 1..12 in 2-D/3-D from smooth / straight / nearly-cusped families against a '
             'composite Gauss-Legendre reference with self-estimated error (tolerance 2^-24 relative), chord/polygon bounds, '
             'additivity over subdivision; non-trivial = net not all zero; distinct by hash of exact inputs',
-    'partial': ['length: the accuracy of the adaptive quadrature (QUADPACK dqagse / scipy.integrate.quad) is external and only '
-                'cross-checked numerically; proved: the shoelace tables are the Green integral for every net (degrees 1..4), the '
-                'error branches; the integrand identity vec_size^2 = |B\'(s)|^2 is C11.hodograph_is_derivative'],
+    'partial': [
+                "length: the accuracy of the adaptive quadrature (QUADPACK dqagse / scipy.integrate.quad) is external and only cross-checked numerically (additivity under subdivision, invariance under elevation, closed forms for lines / parabolas); proved: the integrand identity vec_size^2 = |B'(s)|^2 (C11.hodograph_is_derivative)",
+                'area: proved for every net - the shoelace tables are the Green integral (edge degrees 1..4), the error branches; Props/C12More: the area of a triangle of degree 1..4 computed from its three edges equals the formal double integral of the Jacobian determinant (triangle_area_is_det_integral_1..4), invariance under elevation of an edge (2..4 nodes), additivity under subdivision of an edge (2..5 nodes); a degree-independent formal Green theorem is not given (edges of degree >= 5 raise in the code anyway)',
+    ],
     'trusted_base': ['modelled not verified: shoelace_for_area / compute_area in triangle_helpers.py and triangle.f90, Triangle.area, '
                      'CurvedPolygon.area glue; compute_length closed-form branches and integrand; trusted, not modelled: QUADPACK '
                      '(quadpack.f90) and scipy.integrate.quad'],
